@@ -98,6 +98,8 @@ class Data(object):
         return blob_byte(self.id, i if z3.is_expr(i) else z3.IntVal(i))
 
     def slice(self, p, n):
+        p = z3.IntVal(p) if type(p) is int else p
+        n = z3.IntVal(n) if type(n) is int else n
         return blob(slice_of(self.id, p, n), n)
 
 
@@ -266,17 +268,47 @@ def parse_scalar(fmt, c, data, p):
 
 
 def fmt_bytes(fmt, v):
-    """the bytes format `fmt` uses for scalar value v (any representable value,
-    not only the minimal form) and the condition that v is representable;
-    returns (representable, first byte term, bytes term)"""
+    """the bytes format `fmt` uses for scalar value v (ANY representable value, not only the
+    minimal form) and the condition that v is representable in it: (representable, chunks)"""
     name, lo, hi, fam = fmt
+    code = bconst(bytes([lo]))
     if name == 'positive fixint':
-        return z3.And(v.t >= 0, v.t <= 127), v.t, be(v.t, 1)
+        return z3.And(v.t >= 0, v.t <= 127), be(v.t, 1)
     if name == 'negative fixint':
-        return z3.And(v.t >= -32, v.t <= -1), v.t + 256, be(v.t, 1)
+        return z3.And(v.t >= -32, v.t <= -1), be(v.t, 1)
     if fam == 'int':
         signed = name.startswith('int')
         bits = int(name.split()[1])
         rng = z3.And(v.t >= -2 ** (bits - 1), v.t < 2 ** (bits - 1)) if signed else z3.And(v.t >= 0, v.t < 2 ** bits)
-        return rng, z3.IntVal(lo), cat(bconst(bytes([lo])), be(v.t, bits // 8))
+        return rng, cat(code, be(v.t, bits // 8))
+    if fam == 'nil':
+        return z3.BoolVal(True), code
+    if fam == 'bool':
+        return z3.BoolVal(v.b == (name == 'true')), code
+    if name == 'float 64':
+        return z3.BoolVal(True), cat(code, f64_chunks(v.x))
+    if fam in ('str', 'bin', 'ext'):
+        n = v.n
+        pay = (blob(v.id, n),)
+        ty = be(v.ty, 1) if fam == 'ext' else ()
+        if name == 'fixstr':
+            return z3.And(n >= 0, n <= 31), cat(be(0xa0 + n, 1), pay)
+        if name.startswith('fixext'):
+            return n == int(name.split()[1]), cat(code, ty, pay)
+        h = int(name.split()[1]) // 8
+        return z3.And(n >= 0, n < 2 ** (8 * h)), cat(code, be(n, h), ty, pay)
     raise AssertionError(fmt)
+
+
+def placed(data, off, chunks):
+    """the byte string `chunks` occupies data[off : off+len]"""
+    cs = []
+    o = off
+    for c in chunks:
+        if c[0] == 'b':
+            cs.append(data.byte(z3.simplify(o)) == c[1])
+            o = o + 1
+        else:
+            cs.append(slice_of(data.id, z3.simplify(o), c[2]) == c[1])
+            o = o + c[2]
+    return z3.And(*cs), z3.simplify(o)
